@@ -53,7 +53,7 @@ def join_sig_w_time_shift(sig, time_shifts, jtype='add'):
     shifted_values: array_like [2D shape(len(sig.values), len(shift))]
 
     """
-    shifts = np.array(time_shifts / sig.dt, dtype=int)
+    shifts = np.array(np.asarray(time_shifts) / sig.dt, dtype=int)
     values = sig.values
     return join_values_w_shifts(values, shifts, jtype=jtype)
 
